@@ -143,6 +143,13 @@ def columnarSelectW (t : Table) (u : Unspec) (c : Cond) : List Nat :=
     | none => select t c
   else select t c
 
+/-- `get_rows_by_indices` fed with `id.saturating_sub(1)` for every looked-up row id (what the index paths of
+    `select` / `select_with_limit` / `count` / `count_column` do) -/
+def fetchBySlot (t : Table) (ids : List Nat) : List RowE :=
+  ids.filterMap (fun i => match t.rows[i - 1]? with
+    | some r => if r.alive then some r else none
+    | none => none)
+
 /-- the two extreme choices of the unspecified storage, for the driver -/
 def Unspec.zeros : Unspec := ⟨fun _ _ => 0, fun _ _ => 0, fun _ => false, fun _ _ => false⟩
 def Unspec.ones : Unspec := ⟨fun _ p => (p : Int) - 3, fun _ p => 4607182418800017408 + p, fun _ => true, fun _ _ => true⟩
